@@ -249,4 +249,6 @@ def main(argv):
 
 
 if __name__ == '__main__':
+    import signal
+    signal.signal(signal.SIGPIPE, signal.SIG_DFL)
     sys.exit(main(sys.argv[1:]))
